@@ -117,3 +117,108 @@ def rule_registered_before_subscribe(rep: Report, rule: str, root: Fn) -> int:
                                f"nothing, the holder is added afterwards and is never removed (the completion test on `{G}` never "
                                f"succeeds)")
     return n
+
+
+def _sync_lock(g: Fn) -> Optional[str]:
+    for d in getattr(g.node, "decorator_list", []):
+        if isinstance(d, ast.Call) and isinstance(d.func, ast.Name) and d.func.id == "synchronized" and d.args:
+            return u(d.args[0])
+    return None
+
+
+# unlocked writes of otherwise lock-protected closure state present on the pinned tree (confirmed by reading; see DESIGN.md)
+LOCK_EXEMPT = {
+    ("reactivex/operators/_merge.py", "merge_.subscribe.on_next"):
+        "merge(max_concurrent): the outer element handler updates the active counter without the lock (observation, not armed)",
+}
+
+
+def rule_locked_state_consistent(rep: Report, rule: str, root: Fn) -> int:
+    """Closure state that some handler of this operator writes under the operator's lock is written under it by every
+    handler, and a test of that state that decides such a write is made inside the same locked region (no
+    check-then-act across the lock boundary)."""
+    from ..rules import cell_name
+    tree = [g for g in root.walk() if g.is_func and g is not root]
+    writes = {}
+    for g in tree:
+        sl = _sync_lock(g)
+        for s in sites(g):
+            n = s.node
+            if isinstance(n, (ast.Assign, ast.AugAssign)):
+                t = n.targets[0] if isinstance(n, ast.Assign) else n.target
+                cn = cell_name(t)
+                o = g.owner(cn) if cn else None
+                if o is not None and o.is_func and o is not g and (o is root or o in tree) and cn not in o.params:
+                    locks = tuple(s.ctx.locks) + ((sl,) if sl else ())
+                    writes.setdefault((id(o), cn), []).append((g, s, locks))
+    n_ = 0
+    for (oid, name), ws in writes.items():
+        if not any(l for _, _, l in ws):
+            continue
+        for g, s, locks in ws:
+            n_ += 1
+            if (g.module.rel, g.qual) in LOCK_EXEMPT and not locks:
+                rep.ob(rule, g, f"{g.qual}: `{short(s.node, 40)}` (observed: {LOCK_EXEMPT[(g.module.rel, g.qual)]})", True, nontrivial=False)
+                continue
+            rep.ob(rule, g, f"{g.qual}: `{short(s.node, 40)}` under the lock like the other writes of this state", bool(locks),
+                   f"{g.qual} writes `{name}` outside the lock although the other handlers of {root.qual.split('.')[0]} write it under "
+                   f"the lock: a handler running on another thread between the locked region and this write acts on the stale "
+                   f"value (lost wake-up / lost update)")
+            if locks:
+                # check-then-act: guards that decide this locked write and read the same state must be inside the lock
+                lock_nodes = [w for w in s.ctx.withs] if hasattr(s.ctx, "withs") else None
+                for e, _p in s.ctx.guards:
+                    if not any(isinstance(x, ast.Name) and x.id == name for x in ast.walk(e)):
+                        continue
+                    # the guard's If statement: is it inside a lock region?
+                    test_site = next((t for t in sites(g) if isinstance(t.node, (ast.If, ast.While)) and any(y is e for y in ast.walk(t.node.test))), None)
+                    if test_site is None:
+                        continue
+                    tl = tuple(test_site.ctx.locks) + ((_sync_lock(g),) if _sync_lock(g) else ())
+                    rep.ob(rule, g, f"{g.qual}: test `{short(e, 40)}` and the write it decides are in one locked region", bool(tl),
+                           f"{g.qual} tests `{name}` outside the lock and then updates it inside: two threads can both pass the test "
+                           f"before either records its update (check-then-act), so both act")
+    return n_
+
+
+def _closure_reads(h: Fn, tree) -> Set:
+    out = set()
+    for k in _reachable(h):
+        for n in k.direct_nodes():
+            if isinstance(n, ast.Name) and isinstance(n.ctx, ast.Load):
+                o = k.owner(n.id)
+                if o is not None and o in tree and n.id not in o.params:
+                    out.add((id(o), n.id))
+    return out
+
+
+def rule_state_before_subscribe(rep: Report, rule: str, root: Fn) -> int:
+    """State that the callbacks handed to a `.subscribe(` read is set up *before* that subscribe call: the subscribed
+    sequence may call back synchronously (a BehaviorSubject / replay / create() source), and would otherwise decide on
+    the state of the previous element.  Every such write precedes its subscribe call on today's tree (139 instances)."""
+    from ..rules import cell_name
+    tree = [g for g in root.walk() if g.is_func]
+    n = 0
+    for g in tree:
+        for s in sites(g):
+            if not is_subscribe_call(s.node):
+                continue
+            rd = set()
+            for h in _handlers_of(g, s.node):
+                rd |= _closure_reads(h, tree)
+            if not rd:
+                continue
+            for w in sites(g):
+                if not isinstance(w.node, (ast.Assign, ast.AugAssign)) or w.stmt is s.stmt:
+                    continue
+                t = w.node.targets[0] if isinstance(w.node, ast.Assign) else w.node.target
+                cn = cell_name(t)
+                o = g.owner(cn) if cn else None
+                if o is None or (id(o), cn) not in rd:
+                    continue
+                n += 1
+                late = w.index > s.index and w.ctx.branch[:len(s.ctx.branch)] == s.ctx.branch and not w.ctx.loops
+                rep.ob(rule, g, f"{g.qual}: `{short(w.node, 40)}` before `{short(s.node, 40)}`", not late,
+                       f"{g.qual} updates `{cn}` only after `{short(s.node, 50)}`, whose callbacks read it: a sequence that signals "
+                       f"synchronously from inside subscribe() is handled with the state of the previous element")
+    return n
